@@ -49,7 +49,7 @@ def ensure_hgen():
     hgen = os.path.join(VERIF, "bin", "hgen")
     src = os.path.join(VERIF, "gose")
     newest = max(os.path.getmtime(p) for p in glob.glob(os.path.join(src, "cmd", "hgen", "*.go")))
-    if not os.path.exists(hgen) or os.path.getmtime(hgen) < newest:
+    if not os.path.exists(hgen) or (os.path.getmtime(hgen) < newest and not os.environ.get("VERIF_NO_REBUILD")):
         sh(["go", "build", "-o", hgen, "./cmd/hgen"], cwd=src, check=True)
     return hgen
 
